@@ -355,12 +355,55 @@ pub fn dig_text_oracle(text: &str, out: &mut CaseOut) -> Option<dig::File> {
         }
         Ok(Err(_)) => {
             out.class("load:err");
+            other_entry_points(text, None, out);
             None
         }
         Ok(Ok(f)) => {
             out.class("load:ok");
             load_equations(&f, out);
+            other_entry_points(text, Some(&f), out);
             Some(f)
+        }
+    }
+}
+
+/// `str::parse::<dig::File>()` and `dig::File::open(path)` are the other two documented ways to load a document; both
+/// must be as total as `File::parse` and recover the same interface and tests from the same text. `open` is tried
+/// for one text in eight (chosen by the text itself) through a scratch file that is removed again.
+fn other_entry_points(text: &str, parsed: Option<&dig::File>, out: &mut CaseOut) {
+    let show = |f: &dig::File| format!("{:?} {:?}", f.signals, f.test_cases);
+    let want = parsed.map(show);
+    match guarded(|| text.parse::<dig::File>()) {
+        Err(p) => {
+            out.fail(p.key(), format!("str::parse::<dig::File>() panicked: {p}"));
+            return;
+        }
+        Ok(r) => {
+            let got = r.ok().as_ref().map(show);
+            if got != want {
+                out.fail("c16:entry-points-differ", format!("str::parse::<dig::File>() gives {got:?}\n but File::parse gives {want:?}"));
+                return;
+            }
+        }
+    }
+    let h = text.bytes().fold(0xcbf29ce484222325u64, |h, b| (h ^ b as u64).wrapping_mul(0x100000001b3));
+    if h % 8 != 0 {
+        return;
+    }
+    out.class("load:via-open");
+    let path = std::env::temp_dir().join(format!("dtr-verif-{}-{:?}.dig", std::process::id(), std::thread::current().id()));
+    if std::fs::write(&path, text).is_err() {
+        return;
+    }
+    let r = guarded(|| dig::File::open(&path));
+    let _ = std::fs::remove_file(&path);
+    match r {
+        Err(p) => out.fail(p.key(), format!("File::open panicked: {p}")),
+        Ok(r) => {
+            let got = r.ok().as_ref().map(show);
+            if got != want {
+                out.fail("c16:entry-points-differ", format!("File::open gives {got:?}\n but File::parse of the same text gives {want:?}"));
+            }
         }
     }
 }
